@@ -1094,9 +1094,15 @@ func (s *meekSrv) closeAll() {
 
 func meekScenarios(cfg *mc.Config, emit func(mc.Scenario)) {
 	modes := []string{"status-500", "status-404-body", "status-302", "body-overlong", "body-max", "empty", "cut-in-headers", "cut-in-body", "garbage", "chunked-endless-header", "close-immediately"}
-	for _, mode := range modes {
-		mode := mode
-		emit(mc.Scenario{Name: "meek/" + mode, Weight: 20, Run: func(c *mc.Ctx) {
+	for _, mode0 := range append(append([]string{}, modes...), "burst/cut-in-body", "burst/close-immediately", "burst/status-500", "burst/cut-in-headers") {
+		mode0 := mode0
+		burst := strings.HasPrefix(mode0, "burst/")
+		mode := strings.TrimPrefix(mode0, "burst/")
+		bound := 0
+		if burst {
+			bound = 1
+		}
+		emit(mc.Scenario{Name: "meek/" + mode0, Weight: 20, Bound: bound, Run: func(c *mc.Ctx) {
 			rnd.Install(rnd.New(cfg.Seed, "c10-meek"))
 			srv := &meekSrv{mode: mode}
 			defer srv.closeAll()
@@ -1109,7 +1115,7 @@ func meekScenarios(cfg *mc.Config, emit func(mc.Scenario)) {
 			readerDone, writerDone := false, false
 			qmax := 0
 			closed := false
-			res := sched.Run(c, sched.Options{MaxSteps: 2_000_000, NoPreempt: true, OnQuiescent: func(s *sched.Sched) bool { return false }}, func() {
+			res := sched.Run(c, sched.Options{MaxSteps: 2_000_000, NoPreempt: !burst, PreemptKinds: []string{"send", "close", "select"}, OnQuiescent: func(s *sched.Sched) bool { return false }}, func() {
 				s := sched.Cur()
 				conn, err := cf.Dial("tcp", "", srv.dial, pa)
 				if err != nil {
@@ -1137,12 +1143,20 @@ func meekScenarios(cfg *mc.Config, emit func(mc.Scenario)) {
 					readerDone = true
 				})
 				s.Spawn("writer", func() {
-					for i := 0; i < 6; i++ {
+					n := 6
+					if burst {
+						// many back-to-back writes: the 16-entry backlog fills and Write
+						// blocks while the worker is inside a (failing) round trip
+						n = 40
+					}
+					for i := 0; i < n; i++ {
 						if _, err := conn.Write(o4h.Pattern('W', i*100, 100)); err != nil {
 							wErr = err
 							break
 						}
-						sched.Sleep(200 * time.Millisecond)
+						if !burst {
+							sched.Sleep(200 * time.Millisecond)
+						}
 					}
 					writerDone = true
 				})
@@ -1151,9 +1165,9 @@ func meekScenarios(cfg *mc.Config, emit func(mc.Scenario)) {
 				conn.Close()
 				closed = true
 			})
-			what := "meek_lite, server behaviour " + mode
+			what := "meek_lite, server behaviour " + mode0
 			if len(res.Panics) > 0 {
-				fail(c, "no-panic", "panic/meek/"+mode, "%s: %s", what, res.Panics[0])
+				fail(c, "no-panic", "panic/meek/"+mode0, "%s: %s", what, res.Panics[0])
 				return
 			}
 			if res.Livelock {
